@@ -4,11 +4,11 @@ never /repo itself) and writes seeded/RESULTS.json + a table on stdout.
 usage: tools/mutant_matrix.py [--all] [ids...]"""
 import json, os, subprocess, sys, tempfile, time
 ROOT = os.path.dirname(os.path.dirname(os.path.abspath(__file__)))
-REL = {"C01": ["C13", "C05", "C15"], "C02": ["C05", "C14", "C12"], "C03": ["C04", "C14", "C17", "C06"],
-       "C04": ["C03", "C05"], "C05": ["C04", "C12"], "C06": ["C16", "C05"], "C07": ["C16", "C01"],
-       "C08": ["C15", "C05", "C01"], "C09": ["C18", "C15"], "C10": ["C11"], "C11": ["C10"],
-       "C12": ["C05"], "C13": ["C01", "C15"], "C14": ["C03", "C04"], "C15": ["C08", "C01", "C02"],
-       "C16": ["C07", "C06", "C12"], "C17": ["C03"], "C18": ["C17"]}
+REL = {"C01": ["C13", "C15"], "C02": ["C05", "C12", "C07"], "C03": ["C04", "C06"],
+       "C04": ["C03", "C05"], "C05": ["C04", "C14"], "C06": ["C03"], "C07": ["C16"],
+       "C08": ["C15", "C12"], "C09": ["C18", "C15"], "C10": ["C11", "C16"], "C11": ["C10", "C07"],
+       "C12": ["C02", "C17"], "C13": ["C15", "C17"], "C14": ["C12", "C03"], "C15": ["C08", "C13"],
+       "C16": ["C07", "C12"], "C17": ["C16"], "C18": ["C17"]}
 ALL = sorted(REL)
 args = sys.argv[1:]
 full = "--all" in args
@@ -19,7 +19,13 @@ try:
     results = json.load(open(out_path))
 except Exception:
     results = {}
-for mid in ids:
+import threading
+from concurrent.futures import ThreadPoolExecutor
+JOBS = int(os.environ.get("MATRIX_JOBS", "2"))
+_lock = threading.Lock()
+
+
+def one(mid):
     prop = mid.split("-")[0]
     checks = ALL if full else [prop] + REL[prop]
     w = tempfile.mkdtemp(prefix="mm.")
@@ -27,7 +33,9 @@ for mid in ids:
                    capture_output=True)
     ap = subprocess.run(["git", "-C", w, "apply", os.path.join(ROOT, "seeded", mid, "patch.diff")],
                         capture_output=True, text=True)
-    row = results.setdefault(mid, {})
+    with _lock:
+        row = results.setdefault(mid, {})
+        row.clear()
     if ap.returncode != 0:
         row["_apply"] = "FAILED"
     else:
@@ -36,15 +44,23 @@ for mid in ids:
             t0 = time.time()
             p = subprocess.run([os.path.join(ROOT, "check"), c, "--tier", "quick"],
                                capture_output=True, text=True, cwd=ROOT,
-                               env=dict(os.environ, VERIF_REPO=w))
+                               env=dict(os.environ, VERIF_REPO=w,
+                                        VERIF_NPROC=str(max(4, 16 // JOBS))))
             nviol = sum(1 for l in p.stdout.splitlines() if l.startswith("VIOLATION"))
             row[c] = {"rc": p.returncode, "violation_lines": nviol, "wall_s": round(time.time() - t0, 1)}
             print(mid, c, row[c], flush=True)
+            if c == prop and p.returncode == 1 and not full and os.environ.get("MATRIX_CROSS") != "1":
+                break      # caught by its own check: the related checks are only asked otherwise
     subprocess.run(["git", "-C", "/repo", "worktree", "remove", "--force", w], capture_output=True)
     subprocess.run(["rm", "-rf", w])
     row["_head"] = subprocess.run(["git", "-C", "/repo", "log", "--format=%h", "-1"],
                                   capture_output=True, text=True).stdout.strip()
-    json.dump(results, open(out_path, "w"), indent=1, sort_keys=True)
+    with _lock:
+        json.dump(results, open(out_path, "w"), indent=1, sort_keys=True)
+
+
+with ThreadPoolExecutor(JOBS) as ex:
+    list(ex.map(one, ids))
 print("\nid       own-check  caught-by")
 for mid in sorted(results):
     row = results[mid]
